@@ -167,6 +167,17 @@ def directed_models(ctx, tmp):
           "B = CvtToBinary(InFieldName = T, Threshold = 3, Direction = LowToHigh)", "C = NormalizeCurve(InFieldName = T, RawValues = [2, 4], NormalValues = [0, 1])",
           "Z = CvtToFuzzyMeanToMid(InFieldName = T, IgnoreZeros = False, FuzzyValues = [-1, -0.5, 0, 0.5, 1])"],
          {"M": [0.0, 0.25, 0.5, 0.5 + 0.25 / 1.5, 1.0], "C": [0.0, 0.0, 0.5, 1.0, 1.0], "Z": [-1.0, -0.5, 0.0, 0.5 / 1.5, 1.0], "B": [0.0, 0.0, 1.0, 1.0, 1.0], "T": t}))
+    # rarely used options on data that makes them matter (round 9): IgnoreZeros with zeros at the low end of the field - the ends of the curve are the field's
+    # own minimum and maximum (0 and 6), only the three means ignore the zeros: 2 4 6 -> mean 4, halves {2,4} and {6}: curve (0,0) (3,.25) (4,.5) (6,1)
+    with open(os.path.join(tmp, "dm3.csv"), "w") as f:
+        f.write("z\n0\n0\n2\n4\n6\n")
+    z = [0.0, 0.0, 2.0, 4.0, 6.0]
+    models.append(
+        (['Z = EEMSRead(InFileName = "dm3.csv", InFieldName = z)', "M = NormalizeMeanToMid(InFieldName = Z, IgnoreZeros = True, NormalValues = [0, 0.25, 0.5, 0.75, 1])",
+          "N = NormalizeMeanToMid(InFieldName = Z, IgnoreZeros = False, NormalValues = [0, 0.25, 0.5, 0.75, 1])", "S = Sum(InFieldNames = [Z, M])",
+          "F = CvtToFuzzyMeanToMid(InFieldName = Z, IgnoreZeros = True, FuzzyValues = [-1, -0.5, 0, 0.5, 1])"],
+         {"M": [0.0, 0.0, 0.25 * 2 / 3, 0.5, 1.0], "N": [0.0, 0.0, 0.25 + 0.25 * (2 - 2.0 / 3) / (2.4 - 2.0 / 3), 0.5 + 0.25 * (4 - 2.4) / (5 - 2.4), 1.0],
+          "F": [-1.0, -1.0, -1 + 0.5 * 2 / 3, 0.0, 1.0], "Z": z}))
     for lines, want in models:
         for perm in itertools.permutations(lines):
             src = "\n".join(perm) + "\n"
